@@ -53,7 +53,7 @@ func init() {
 			NRandom: 60, MaxTraces: 60,
 			Gen:   genParams{NBlob: 12, NTree: 14, NCommit: 12, NTag: 5, MaxEnt: 4, MaxBlob: 300, Merges: true, RootKinds: "mixed"},
 			Fails: scanFails["C01"],
-			Extra: append(wideCases("c01"), rootKindCases("c01")...),
+			Extra: append(append(wideCases("c01"), rootKindCases("c01")...), scaleCases("c01")...),
 			Rule:  "TLC family Mixed (<=2 blobs, 2 trees, 2 commits, 1 tag; roots of every kind, walked or not, references or ROOT arguments) x all delivery orders, every behaviour replayed into sizes.Graph; plus materialised repositories (TLC graphs and random graphs with merges, shared subtrees, tags of anything, noise, unselected refs, ROOT arguments) scanned by the binary; distinct = distinct (graph, roots, order) / (graph, arguments)",
 		}
 		if !quick(c) {
@@ -149,7 +149,7 @@ func init() {
 			NRandom: 50, MaxTraces: 60,
 			Gen:   genParams{NBlob: 8, NTree: 18, NCommit: 4, NTag: 2, MaxEnt: 5, MaxBlob: 200, Merges: false, RootKinds: "mixed", SpecialNames: true},
 			Fails: scanFails["C04"],
-			Extra: wideCases("c04"),
+			Extra: append(wideCases("c04"), scaleCases("c04")...),
 			Rule:  "TLC family Trees (all DAGs of pairwise distinct trees, entries file/link/submodule/subtree, names of different lengths, stray trees as roots) x all delivery orders: every finalized tree must equal its recursive expansion on 7 dimensions; random tree DAGs with sharing, repetition, empty trees and odd names scanned by the binary; distinct = distinct (graph, order) / (graph, arguments)",
 		}
 		if !quick(c) {
